@@ -118,14 +118,19 @@ CLAIMED = {
     "C09": dict(
         engine="M4 Rpq",
         technique="Lean 4: the queue invariant of C08 extended with a `cancel` action (drop of a future parked at an await); tie: turnstile "
-                  "schedules with injected cancellations on the real ReadyPipeQueue, run in lock-step with the model",
+                  "schedules with injected cancellations on the real ReadyPipeQueue, run in lock-step with the model; stack level: send()/"
+                  "send_multipart()/recv()/recv_multipart() futures of real PUSH/PULL, DEALER/ROUTER, ROUTER/DEALER, DEALER/DEALER pairs "
+                  "polled 1..6 times and dropped, under back-pressure with peer traffic in between, judged by a loss/duplicate/tear/order/"
+                  "usability oracle",
         text="Proof over the queue model: dropping a future that is parked at an await (a consumer waiting for a ready entry, a producer "
              "waiting for channel space) or not yet polled preserves the invariant (reservation rolled back, no token lost), changes no "
              "channel, no log of accepted/taken/returned items, and a cancelled send has written nothing; the arm/re-arm awaits are never "
              "cancellation points; the invariant survives any mix of steps and cancellations. 5 theorems. KNOWN FINDING: a use-after-free in "
              "the fibre dependency's async mpmc (dangling waiter) is reproduced by a valgrind witness. Partial: socket-level API futures "
-             "(send_multipart transactions, REQ/REP state claims, ROUTER fragmented sends) are not modelled here; REQ/REP claims roll back "
-             "on drop by construction of the fix (8c... in /repo) and are exercised by the repository's own tests only.",
+             "(DEALER pending queue and send transaction, ROUTER sends, PUSH pending parts, stashes of recv_multipart) are not part of the "
+             "theorems: they are exercised by the sampled cancel scripts on real sockets (every message whole, none twice, accepted ones "
+             "arrive in order, refused ones do not, the sockets stay usable); REQ/REP state claims under dropped futures are modelled and "
+             "proved in C10.",
         note=COMMON_NOTE + "Cancellation inside third-party futures (fibre, tokio) is assumed safe except for the recorded finding.",
         design="§8 C09"),
     "C10": dict(
@@ -169,7 +174,8 @@ CLAIMED = {
              "three statements for RCVTIMEO on an empty socket; a refused send changes nothing and everything accepted stays accounted for in wire "
              "order; the sending side of a connection holds at most 2*SNDHWM + SNDBATCH_COUNT messages (pipe, egress buffer, carry-over) for every "
              "producer/consumer speed, the receiving side RCVHWM plus one read; the earlier 30 s cap on SNDTIMEO -1 is proved to violate the "
-             "statement. 13 theorems. Partial: wall-clock accuracy of Tokio timers, kernel socket buffers and DEALER's extra pending queue "
+             "statement. 13 theorems. KNOWN FINDING C14:sndtimeo-change-ignored-by-existing-connections (DEALER/ROUTER/PUB keep the SNDTIMEO their "
+             "connection was created with; replayed on every run). Partial: wall-clock accuracy of Tokio timers, kernel socket buffers and DEALER's extra pending queue "
              "(bounded by SNDHWM in the code, matched by pattern) are outside the theorems and measured by the scenarios only.",
         note=COMMON_NOTE + "Timing oracles allow 600 ms of slack; kernel buffers are pinned with SNDBUF/RCVBUF in most scenarios.",
         design="§8 C14"),
